@@ -210,9 +210,14 @@ impl Scenario for PosteriorScenario {
             if t.abs() > crit {
                 out.violate(format!("C04/posterior_mean/{pname}"), format!("coordinate {i}: mean over {k} chains {m:e} (se {se:e}), truth {:e}: t = {t:.1} (critical {crit})", truth.mean[i]));
             }
+            // heavy tails: the sample variance of a Student-t with few degrees of freedom converges too slowly
+            // (and its between-chain spread is itself unreliable) for a test at this level
+            let heavy = matches!(&self.target, Target::StudentT { nu, .. } if *nu < 10.0);
             let (t, m, se) = stat(&vars[i], truth.var[i], truth.se_var[i]);
-            worst = worst.max(t.abs());
-            if t.abs() > crit {
+            if !heavy {
+                worst = worst.max(t.abs());
+            }
+            if t.abs() > crit && !heavy {
                 out.violate(format!("C04/posterior_variance/{pname}"), format!("coordinate {i}: variance over {k} chains {m:e} (se {se:e}), truth {:e} (ratio {:.3}): t = {t:.1} (critical {crit})", truth.var[i], m / truth.var[i]));
             }
             for q in 0..5 {
